@@ -33,7 +33,7 @@ func runC12(c *Ctx) {
 	r.Rule("R12-balance", "the board is handed back as received: push/pop balance on all paths, including the cancelled ones, and the mate/stalemate verdict (which writes the game result) only where no move was pushed; a take-back is the exact inverse of the push, the game result included", 7+18)
 	r.Rule("R12-nowrite", "on every path from a child evaluation to a transposition-table write there is a cancellation poll whose not-cancelled edge is taken: a halted search never stores a value computed from a cut-short child", 2)
 	r.Rule("R12-bound", "the interior table write happens with an exact bound only on paths on which the move loop ran to exhaustion", 1)
-	r.Rule("R12-quit", "Halt closes the quit channel; the controller derives the search context from it and passes that context to the root search; nested searches forward the same context", 3)
+	r.Rule("R12-quit", "Halt closes the quit channel; the controller derives the search context from it and passes that context to the root search; nested searches forward the same context; a halted iteration is never published as a result", 3+2)
 
 	m := newSearchModel(c, "R12-poll")
 	if m == nil {
@@ -61,6 +61,17 @@ func runC12(c *Ctx) {
 	})
 	c.guard("R12-poll", func() { c12Paths(c, m, rec) })
 	c.guard("R12-quit", func() { c12Quit(c, m) })
+	// ... and the controller does not pass a halted iteration on as a result: a failed or halted iteration
+	// is neither stored, sent nor signalled (rule of C15, re-decided here)
+	c.guard("R12-quit", func() {
+		if h := newHandleModel(c, "R12-quit"); h != nil {
+			r.WithAlias("R15-loop", "-", func() {
+				r.WithAlias("R15-halt", "-", func() {
+					r.WithAlias("R15-publish", "R12-quit", func() { c15Loop(c, h) })
+				})
+			})
+		}
+	})
 }
 
 func c12Paths(c *Ctx, m *searchModel, rec []*ssa.Function) {
